@@ -10,6 +10,9 @@
        m:<frame>:<T|F>:<id off>:<qnames labs;..>:<labs,off,n;..>:<model loc>          mDNS (l: = LLMNR)
        b:<frame>:<name loc>                             NBNS node status response
        s:<frame>:<model hex>:<manuf hex>:<os hex>       SSDP M-SEARCH (user-agent constants)
+       c:<frame> / e:<frame>                            the application calls Session.Capture / Release(frame.SrcAddr.MAC)
+       a:<frame>:<ip loc>:<name loc>                    ... Session.DHCPv4Update(frame.SrcAddr.MAC, address, name from the packet)
+       f:<frame>:<ip loc>:<name loc>                    ... Session.SetDHCPv4IPOffer(frame.SrcAddr.MAC, address, name)
        x:<key>,<key>,..    purge deleting these hosts   o:<key>   purge taking this host offline
        u:<ip>              dhcp StartHunt               q         table dump
    Answer: column 1 = "T|F <transcript of the shared-buffer run>" (flag = equals the fresh-buffer run),
@@ -113,6 +116,12 @@ Definition parse_op (t : string) : option pop :=
            else if String.eqb k "l" then option_map KLlmnr (p_mdns rest)
            else if String.eqb k "b" then
              match rest with [l] => option_map KNbns (p_opt p_loc l) | _ => None end
+           else if String.eqb k "c" then match rest with [] => Some KCapture | _ => None end
+           else if String.eqb k "e" then match rest with [] => Some KRelease | _ => None end
+           else if String.eqb k "a" then
+             match rest with [i; n] => i' <-- p_loc i ;; n' <-- p_loc n ;; Some (KApiUpdate i' n') | _ => None end
+           else if String.eqb k "f" then
+             match rest with [i; n] => i' <-- p_loc i ;; n' <-- p_loc n ;; Some (KApiOffer i' n') | _ => None end
            else if String.eqb k "s" then
              match rest with
              | [a1; a2; a3] => x <-- bytes_of_tok a1 ;; y <-- bytes_of_tok a2 ;; z <-- bytes_of_tok a3 ;; Some (KSsdp x y z)
@@ -161,7 +170,7 @@ Definition dispatch (kind : string) (args : list string) : string :=
         end
     | _ => BADARGS
     end
-  else if String.eqb kind "h" then
+  else if String.eqb kind "h" || String.eqb kind "hl" then   (* hl: the harness leaves notifications queued across packets *)
     match args with
     | f :: s :: ops =>
         match N_of_dec f, N_of_dec s, opt_all (map parse_op ops) with
